@@ -4,7 +4,14 @@
 use crate::common::SizeOnlyView;
 use fast_image_resize::*;
 
-fn fit_case(b_max: u32) {
+#[derive(Clone, Copy, PartialEq)]
+enum Part {
+    Bounds,
+    Centering,
+    Aspect,
+}
+
+fn fit_case(b_max: u32, part: Part) {
     let sw: u32 = kani::any();
     let sh: u32 = kani::any();
     let dw: u32 = kani::any();
@@ -16,39 +23,60 @@ fn fit_case(b_max: u32) {
     kani::assume(!cx.is_nan() && !cy.is_nan());
     let b = CropBox::fit_src_into_dst_size(sw, sh, dw, dh, Some((cx, cy)));
     let (w, h) = (sw as f64, sh as f64);
-    assert!(b.width > 0. && b.height > 0., "C15: crop box has positive size");
-    assert!(b.left >= 0. && b.top >= 0., "C15: crop box origin is not negative");
-    assert!(b.left + b.width <= w, "C15: crop box does not exceed the source on the right");
-    assert!(b.top + b.height <= h, "C15: crop box does not exceed the source at the bottom");
-    // literally "the resize never fails with a cropping error"
-    let v = SizeOnlyView { w: sw, h: sh };
-    assert!(verif_api::validate_crop_box(&v, b).is_ok(), "C15: the computed crop box passes validation");
-    assert!(b.width == w || b.height == h, "C15: crop box spans the full source in at least one dimension");
-    let kx = if cx < 0. { 0. } else if cx > 1. { 1. } else { cx };
-    let ky = if cy < 0. { 0. } else if cy > 1. { 1. } else { cy };
-    assert!(b.left == (w - b.width) * kx, "C15: left margin = removed width * clamped centering");
-    assert!(b.top == (h - b.height) * ky, "C15: top margin = removed height * clamped centering");
-    // aspect ratio of the box equals the destination's up to rounding
-    let want = dw as f64 / dh as f64;
-    let got = b.width / b.height;
-    let tol = want * 1e-12;
-    assert!(got - want <= tol && want - got <= tol, "C15: crop box has the destination's aspect ratio");
+    match part {
+        Part::Bounds => {
+            assert!(b.width > 0. && b.height > 0., "C15: crop box has positive size");
+            assert!(b.left >= 0. && b.top >= 0., "C15: crop box origin is not negative");
+            assert!(b.left + b.width <= w, "C15: crop box does not exceed the source on the right");
+            assert!(b.top + b.height <= h, "C15: crop box does not exceed the source at the bottom");
+            // literally "the resize never fails with a cropping error"
+            let v = SizeOnlyView { w: sw, h: sh };
+            assert!(verif_api::validate_crop_box(&v, b).is_ok(), "C15: the computed crop box passes validation");
+            assert!(b.width == w || b.height == h, "C15: crop box spans the full source in at least one dimension");
+        }
+        Part::Centering => {
+            let kx = if cx < 0. { 0. } else if cx > 1. { 1. } else { cx };
+            let ky = if cy < 0. { 0. } else if cy > 1. { 1. } else { cy };
+            assert!(b.left == (w - b.width) * kx, "C15: left margin = removed width * clamped centering");
+            assert!(b.top == (h - b.height) * ky, "C15: top margin = removed height * clamped centering");
+        }
+        Part::Aspect => {
+            // width/height == dw/dh up to rounding, written without a division of symbolic floats:
+            // |width * dh - height * dw| <= tolerance
+            let lhs = b.width * dh as f64;
+            let rhs = b.height * dw as f64;
+            let tol = (lhs + rhs) * 1e-12;
+            assert!(lhs - rhs <= tol && rhs - lhs <= tol, "C15: crop box has the destination's aspect ratio");
+        }
+    }
     kani::cover!(b.width < w && cx > 0.25 && cx < 0.75, "sides cropped, interior centering");
     kani::cover!(b.height < h && cy > 1.0, "top/bottom cropped, centering above 1");
     kani::cover!(b.width == w && b.height == h && sw != dw, "same ratio, different size");
 }
 
-// @h c15_fit_b5 | prop=C15 | tier=quick | t=1500 | mem=10 | enc=CropBox::fit_src_into_dst_size, CroppedSrcImageView::crop (via verif_api::validate_crop_box) | bounds=symbolic: src and dst sizes each 1..=5, centering any non-NaN f64 pair incl. inf and values outside [0,1]; no loops
-#[kani::proof]
-pub fn c15_fit_b5() {
-    fit_case(5);
+macro_rules! c15 {
+    ($name:ident, $b:expr, $part:ident) => {
+        #[kani::proof]
+        pub fn $name() {
+            fit_case($b, Part::$part);
+        }
+    };
 }
 
-// @h c15_fit_b7 | prop=C15 | tier=thorough | t=3000 | mem=12 | enc=CropBox::fit_src_into_dst_size, CroppedSrcImageView::crop | bounds=symbolic: sizes 1..=7, centering any non-NaN f64 pair; no loops
-#[kani::proof]
-pub fn c15_fit_b7() {
-    fit_case(7);
-}
+// @h c15_bounds_b3 | prop=C15 | tier=quick | t=1800 | mem=8 | enc=CropBox::fit_src_into_dst_size, CroppedSrcImageView::crop (via verif_api::validate_crop_box) | bounds=symbolic: src and dst sizes each 1..=3, centering any non-NaN f64 pair incl. inf and values outside [0,1]; no loops
+c15!(c15_bounds_b3, 3, Bounds);
+// @h c15_centering_b3 | prop=C15 | tier=quick | t=1800 | mem=8 | enc=CropBox::fit_src_into_dst_size | bounds=symbolic: sizes 1..=3, centering any non-NaN f64 pair; no loops
+c15!(c15_centering_b3, 3, Centering);
+// @h c15_aspect_b3 | prop=C15 | tier=quick | t=1800 | mem=8 | enc=CropBox::fit_src_into_dst_size | bounds=symbolic: sizes 1..=3, centering any non-NaN f64 pair; no loops
+c15!(c15_aspect_b3, 3, Aspect);
+// @h c15_bounds_b5 | prop=C15 | tier=thorough | t=3600 | mem=10 | enc=CropBox::fit_src_into_dst_size, CroppedSrcImageView::crop | bounds=symbolic: sizes 1..=5, centering any non-NaN f64 pair; no loops
+c15!(c15_bounds_b5, 5, Bounds);
+// @h c15_bounds_b7 | prop=C15 | tier=thorough | t=5400 | mem=12 | enc=CropBox::fit_src_into_dst_size, CroppedSrcImageView::crop | bounds=symbolic: sizes 1..=7, centering any non-NaN f64 pair; no loops
+c15!(c15_bounds_b7, 7, Bounds);
+// @h c15_centering_b5 | prop=C15 | tier=thorough | t=3600 | mem=10 | enc=CropBox::fit_src_into_dst_size | bounds=symbolic: sizes 1..=5; no loops
+c15!(c15_centering_b5, 5, Centering);
+// @h c15_aspect_b5 | prop=C15 | tier=thorough | t=3600 | mem=10 | enc=CropBox::fit_src_into_dst_size | bounds=symbolic: sizes 1..=5; no loops
+c15!(c15_aspect_b5, 5, Aspect);
 
 // @h c15_fit_zero | prop=C15 | tier=quick | t=600 | enc=CropBox::fit_src_into_dst_size (zero sizes) | bounds=symbolic: all u32 sizes with at least one zero, any centering; no loops
 #[kani::proof]
